@@ -126,6 +126,14 @@ def step (_ : Unit) (l : Line) : Unit × String :=
     | some t, some s, some b, some ws =>
       out (fmtE fmtTI (toInteger t (ws != 0) s b)) (fmtPTI (Spec.parse t (ws != 0) s b.toNat))
     | _, _, _, _ => bad
+  | "to_integer_nc" =>
+    -- check_overflow = false: a value that is not representable is outside the option's contract (`*`);
+    -- the model still says what the code does there (wrap-around), which the correspondence run compares
+    match ty, l.natList? "s", l.int? "base", l.nat? "ws" with
+    | some t, some s, some b, some ws =>
+      let sp := Spec.parse t (ws != 0) s b.toNat
+      out (fmtE fmtTI (toIntegerNC t (ws != 0) s b)) (match sp with | .range _ => "*" | _ => fmtPTI sp)
+    | _, _, _, _ => bad
   | "cstr" =>
     match fnTy fn, l.natList? "s", l.int? "base" with
     | some t, some s, some b =>
